@@ -714,11 +714,34 @@ def history(rep, rng, proj, nsteps, hid, forced_edits=(), label='random'):
                 classes.append('missing-search-root-unwatched')
             if 'options.bfg' in proj.scripts() and not had_options:
                 classes.append('new-options-file-untracked')
+
+            def explains(kind, hard=()):
+                """the history classes restricted to the failure each finding describes:
+                  skip-keeps-missing-watched-dir  make loops / every later make invokes bfg9000 again; at the skipping step
+                                                  itself only .bfg_find_deps differs from a fresh configure
+                  skip-keeps-stale-find-deps      the build files differ from a fresh configure: at the skipping step only
+                                                  .bfg_find_deps, afterwards (no regeneration is triggered: 'quiet') anything
+                  missing-search-root-unwatched, new-options-file-untracked
+                                                  no regeneration is triggered ('quiet') and the build files stay stale
+                a regeneration that RAN and left other build files than a fresh configure, or a failing make, is explained by
+                none of them"""
+                only_deps = bool(hard) and all(h.startswith('.bfg_find_deps differs') for h in hard)
+                out = []
+                for c in classes:
+                    if c == 'skip-keeps-missing-watched-dir':
+                        ok = kind in ('loop', 'again') or (kind == 'differ' and decision == 'skip' and only_deps)
+                    elif c == 'skip-keeps-stale-find-deps':
+                        ok = kind == 'differ' and ((decision == 'skip' and only_deps) or decision == 'quiet')
+                    else:
+                        ok = kind == 'differ' and decision == 'quiet'
+                    if ok:
+                        out.append(c)
+                return out
             if looped:
                 rep.count('make-loops')
                 if rep.fail('make does not terminate after edit %r: it re-executes itself and runs the regeneration recipe again and '
                             'again (%d times in %d s): %s' % (ed, out1.count('regenerate --lazy'), 25, out1[:200]), replay,
-                            classes=tuple(classes)):
+                            classes=tuple(explains('loop'))):
                     bad += 1
                 pending.pop()
                 break
@@ -729,7 +752,7 @@ def history(rep, rng, proj, nsteps, hid, forced_edits=(), label='random'):
             if rc1 != 0:
                 bad += 1
                 rep.fail('make Makefile failed (rc %d) after edit %r although a fresh configure succeeds: %s' % (rc1, ed, out1[-300:]),
-                         replay, classes=tuple(classes))
+                         replay, classes=())
                 continue
             if not ran and uncached_state(proj, s.src) != unc_at_run:
                 # a cache=False search changed: documented as not tracked - outside the property's guarantee
@@ -747,14 +770,14 @@ def history(rep, rng, proj, nsteps, hid, forced_edits=(), label='random'):
             if hard or 'dist-order' in soft:
                 what = ('after edit %r and the regeneration step (%s) the build files differ from a fresh configure: %s' % (
                     ed, decision, '; '.join(hard + ['Makefile: order of the dist file list' for t in soft if t == 'dist-order'])))
-                cl = list(classes)
+                cl = explains('differ', hard)
                 if not hard:
                     cl.append('dist-order-after-cache-hit')
                 if rep.fail(what, replay, classes=tuple(cl)):
                     bad += 1
             if invoked2:
                 if rep.fail('a second make immediately after the regeneration step invoked bfg9000 again (edit %r, first decision %s): %s' % (
-                        ed, decision, out2[-300:]), replay, classes=tuple(classes)):
+                        ed, decision, out2[-300:]), replay, classes=tuple(explains('again'))):
                     bad += 1
             if decision == 'skip':
                 changed = [n for n in post if post[n] != pre.get(n)]
